@@ -81,7 +81,10 @@ def replay(obj, vd):
     vd.add_validation(res)
     prop = obj.get("property", "C18")
     r2 = dict(res)
-    r2["viol"] = [v for v in res["viol"] if (v["rule"] in H) == (prop == "C18")]
+    if prop == "C08":
+        r2["viol"] = [v for v in res["viol"] if v["rule"] in ("H1", "PANIC")]
+    else:
+        r2["viol"] = [v for v in res["viol"] if (v["rule"] in H) == (prop == "C18")]
     report_viols(vd, prop, r2, obj.get("ctx", {}), pm)
     vd.add_model("replay only", FakeTlc())
     vd.cov["samples"].append(split_runs(tf)[0][:8])
